@@ -124,6 +124,17 @@ Example tx_second_traced_reset_ok :
   snd (f_traced_solve_t tx_scripts tx_cfg (TList [0%nat; 1%nat]) true tx_desc (tx_opts 0 5) 1 tx_s1 tx_tr1) = Ret true.
 Proof. vm_compute. reflexivity. Qed.
 
+(* a second traced solve with ANOTHER name of the same width is accepted, the snapshots are appended — and the Trace
+   keeps the names of the first call (Trace.names is only set when the Trace is (re)created): the later rows hold V1's
+   values under the column name V0.  Mirrored, not judged: the property speaks of labels and values only. *)
+Example tx_same_width_other_name_keeps_old_names :
+  nth 1 (snd (fst (f_traced_solve_t tx_scripts tx_cfg (TName 1) false tx_desc (tx_opts 0 5) 1 tx_s1 tx_tr1))) tx_e
+  = mkTrace [0%nat]
+      [LStart; LBefore; LIter 0; LIter 1; LIter 2; LIter 3; LEnd; LStart; LBefore; LIter 0; LIter 1; LIter 2; LIter 3; LEnd]
+      [[0%float]; [0%float]; [0%float]; [1%float]; [1.5%float]; [1.5%float]; [1.5%float];
+       [7%float]; [7%float]; [7%float]; [7%float]; [7%float]; [7%float]; [7%float]].
+Proof. vm_compute. reflexivity. Qed.
+
 (* ---------------- trace_t's other failure modes surface as the call's exception, before the base class runs *)
 Example tx_unknown_name :
   f_traced_solve_t tx_scripts tx_cfg (TList [0%nat; 5%nat]) false tx_desc (tx_opts 0 5) 1 tx_state tx_tr0
